@@ -4,7 +4,11 @@ Model: coq/Amp/Einsum.v (reference semantics of an index expression, contraction
 EXACTLY over complex rationals inside Coq.
 Tie:
  (E) tf_pwa.einsum.einsum on generated expressions (2-5 operands, rank<=4, sizes 1..3, ellipsis batch, size-1 axes)
-     = einsum_spec; a raise is a decline (accepted), a different value is not;
+     = einsum_spec; a raise is a decline (accepted), a different value is not; tie-prone expressions (the same index
+     set permuted over the operands) are a fixed share of the stream;
+ (R) tf_pwa.einsum.tensor_einsum_reduce_sum with an explicit order table (ties included) = the model of that step
+     (Amp/Einsum_order.v: transposition by the key (order, name), reshape, broadcast product, reduce_sum), which
+     C05_reduce_sum_step_correct proves equal to the reference contraction;
  (B) every contraction the amplitude builder emits (captured by wrapping tf_pwa.amp.core.einsum) = einsum_spec, and
      the density rebuilt inside Coq from these chain tensors = the default eager density;
  (S) each selectable strategy (amp_model/preprocessor pairs, use_tf_function, jit_compile, no_id_cached, lazy_call, second
@@ -23,7 +27,7 @@ from qfmt import Qq, frac
 
 TECHNIQUE = "Coq model of einsum semantics evaluated exactly (vm_compute over complex rationals) + theorems on path contraction; strategies tied to the same Coq-rebuilt density"
 
-HEADER = ("From Coq Require Import List ZArith QArith Qabs.\nFrom TFV Require Import Amp.Einsum.\nImport ListNotations.\nOpen Scope Q_scope.\n")
+HEADER = ("From Coq Require Import List ZArith QArith Qabs.\nFrom TFV Require Import Amp.Einsum Amp.Einsum_order.\nImport ListNotations.\nOpen Scope Q_scope.\n")
 
 
 def qc(z):
@@ -128,6 +132,49 @@ def gen_tie_expr(rnd, pinned=False):
         arrays.append(np.array([complex(rnd.uniform(-1, 1), rnd.uniform(-1, 1)) for _ in range(int(np.prod(shape)))]).reshape(shape))
     pre = "..." if batch else ""
     return ",".join(pre + s for s in subs) + "->" + pre + out, arrays
+
+
+def reduce_sum_step_cases(ctx, rnd, n):
+    """(S) one call of tf_pwa.einsum.tensor_einsum_reduce_sum with an explicit order table (ties included) against the
+    model of that step, Amp/Einsum_order.v reduce_sum_step_q_new (transposition by the sort key (order, name), reshape
+    into the common order, broadcast product, reduce_sum); theorem C05_reduce_sum_step_correct says the model step is
+    the reference contraction."""
+    import tensorflow as tf
+    from tf_pwa.einsum import tensor_einsum_reduce_sum
+    cases = []
+    for k in range(n):
+        letters = "abcd"[: rnd.choice([2, 3, 4])]
+        sizes = {ch: rnd.choice([1, 2, 2, 3]) for ch in letters}
+        order = {ch: rnd.choice([0, 1, 1, 2, 2.5]) for ch in letters}  # ties are the point
+        nops = rnd.randrange(2, 4)
+        subs = ["".join(rnd.sample(letters, rnd.randrange(1, len(letters) + 1))) for _ in range(nops)]
+        used = sorted(set("".join(subs)))
+        out = sorted(rnd.sample(used, rnd.randrange(0, len(used) + 1)), key=lambda x: (order[x], x))
+        arrays = [np.array([complex(rnd.uniform(-1, 1), rnd.uniform(-1, 1)) for _ in range(int(np.prod([sizes[ch] for ch in s_])))]).reshape([sizes[ch] for ch in s_]) for s_ in subs]
+        expr = ",".join(subs) + "->" + "".join(out)
+        ref = np.einsum(expr, *arrays)
+        try:
+            got = np.array(tensor_einsum_reduce_sum(expr, *[tf.constant(a) for a in arrays], order=order))
+        except Exception:
+            ctx.count("reduce_sum_step_declined")
+            continue
+        ctx.evaluations += 1
+        ctx.count("reduce_sum_step_ties=%d" % int(len(set(order[ch] for ch in used)) < len(used)))
+        ctx.distinct.add(("S", expr, tuple(sorted(order.items())), tuple(a.shape for a in arrays)))
+        nm = lambda ch: ord(ch) - ord("a")
+        szs = "[" + "; ".join("(%d, %d)" % (nm(ch), sizes[ch]) for ch in letters) + "]%nat"
+        ords = "(fun i => match i with " + " | ".join("%d => %d" % (nm(ch), int(order[ch] * 100)) for ch in letters) + " | _ => 0 end)%nat"
+        opss = "[" + "; ".join("{| t_idx := [%s]%%nat; t_data := [%s] |}" % ("; ".join(str(nm(ch)) for ch in s_), "; ".join(qc(z) for z in a.reshape(-1))) for s_, a in zip(subs, arrays)) + "]"
+        outs = "[%s]%%nat" % "; ".join(str(nm(ch)) for ch in out)
+        tol = 1e-12 * max(1.0, float(np.abs(ref).max()) if ref.size else 1.0)
+        meta = {"layer": "reduce_sum_step", "expr": expr, "order": {c_: order[c_] for c_ in letters}, "shapes": [list(a.shape) for a in arrays],
+                "operands": [[str(z) for z in a.reshape(-1)] for a in arrays], "impl": [str(z) for z in got.reshape(-1)], "numpy": [str(z) for z in ref.reshape(-1)]}
+        if got.size != ref.size:
+            cases.append(("S%d" % k, "false = true", "reflexivity", meta))
+            continue
+        resl = "[" + "; ".join(qc(z) for z in got.reshape(-1)) + "]"
+        cases.append(("S%d" % k, "qcs_close %s (t_data _ (reduce_sum_step_q_new %s %s %s %s)) %s = true" % (Qq(tol), ords, szs, opss, outs, resl), "vm_compute; reflexivity", meta))
+    return cases
 
 
 def einsum_function_cases(ctx, rnd, n):
@@ -382,6 +429,9 @@ def likelihood_cases(ctx, rnd, cases):
 def search(ctx, fails):
     for f in fails:
         m = f.get("input") or {}
+        if m.get("layer") == "reduce_sum_step" and m.get("impl") != m.get("numpy"):
+            return {"call": "tf_pwa.einsum.tensor_einsum_reduce_sum(expr, *operands, order=order)", "expr": m["expr"], "order": m["order"], "shapes": m["shapes"], "operands": m["operands"],
+                    "tensor_einsum_reduce_sum": m["impl"], "numpy.einsum": m["numpy"]}
         if m.get("layer") == "einsum_function" and m.get("impl") != m.get("numpy"):
             return {"expr": m["expr"], "shapes": m["shapes"], "operands": m["operands"], "tf_pwa.einsum": m["impl"], "numpy.einsum": m["numpy"]}
         if m.get("layer") == "strategy" and "impl_density" in m:
@@ -401,6 +451,7 @@ def run(ctx):
     common.theorem_stage(ctx)
     cases = einsum_function_cases(ctx, rnd, 60 if ctx.tier == "quick" else 600)
     ctx.log("einsum cases", len(cases))
+    cases += reduce_sum_step_cases(ctx, random.Random(ctx.seed * 1000003 + 505), 30 if ctx.tier == "quick" else 300)
     builder_and_strategy_cases(ctx, rnd, ctx.tier, cases)
     ctx.log("builder+strategy cases", len(cases))
     likelihood_cases(ctx, rnd, cases)
